@@ -54,6 +54,12 @@ claimed = {
  "C19": ("exploration", "bounded exhaustive enumeration of rendered GSD documents (templates x values x lexical variants), grammar-level mutations at every position, and all short token strings",
    "(a) every statement template with boundary hole values (and the dependency chains PrmText->ExtUserPrmData->Ref, Module->Slot, plus one full document) is rendered by an independent pretty-printer in the product of lexical variants (keyword case, '=' spacing, trailing/full-line comments, LF/CRLF, text before the marker incl. '#', line continuations) and the parsed description is compared field by field; (b) every number/string swap, numeric extreme, unknown data type, dangling reference and deleted '(' ')' '=' '-' or line at every position of the generated documents and of mock.gsd; (c) all token strings up to length 5/6 over 14 token classes and all 1-2 byte raw inputs. Oracle: never unwinds; (a) must be Ok and equal.",
    "Trusted: the independent pretty-printer / expected-value logic; long random texts are not covered.", "6 C19"),
+ "C06": ("fault_enumeration", "exhaustive single-fault enumeration (every telegram x fault kind, every corruption window, every crash point x restart variant, claim race offsets) on snapshots of rings of real stations",
+   "Per scenario a ring of real stations is brought up; from a snapshot every fault of the plan is applied once - drop / truncate / bit flips of EVERY telegram in a window of HSA+3 rotations, a 3-telegram garbling window at every position, a crash of every station at every effective poll (before / after incl. mid-transmission, with and without restart after 2 and 40 slot times), and the cold-start claim race - then the run continues fault-free for T_rec and is judged by the C02 ring predicate over the stability window and by the silence bound.",
+   "One disturbance episode per execution (k=1); collisions are corrupted bytes in BusSim; T_rec from DESIGN 5.4.", "6 C06"),
+ "C13": ("model_checking", "exhaustive enumeration of ring configurations x application appetites x TTR x poll patterns (thorough: plus every placement of one poll stall) with a trace oracle for hold time and rotation",
+   "Rings of 2-4 real stations with applications that never / always / every third opportunity send SDN or SRD telegrams to passive responders answering after 11 bit, after Tslot-33 bit or never, for TTR in {256, 2000, default} and three poll patterns; on the trace: at most one application request starts after previous-receipt + TTR (+poll slack), consecutive token receipts are at most TTR + N*(cycle + GAP poll + pass) apart, every application is asked at least once per visit.",
+   "Only evaluated once the ring is stable; configurations outside the latency envelope of DESIGN 5.5 are skipped.", "6 C13"),
 }
 not_applicable_reasons = {}
 
